@@ -81,7 +81,11 @@ func certFile(id *world.Identity) string {
 		return p.(string)
 	}
 	p := auxPath(id.Name + ".crt")
-	must(os.WriteFile(p, id.CertPEM, 0o644))
+	pemBytes := append([]byte(nil), id.CertPEM...)
+	if id.Issuer != nil {
+		pemBytes = append(pemBytes, id.Issuer.CertPEM...) // leaf first, then its issuer
+	}
+	must(os.WriteFile(p, pemBytes, 0o644))
 	certFiles.Store(id.Name, p)
 	return p
 }
